@@ -328,6 +328,28 @@ func genLookup(t *Tracer, m *Meta, prop, tier string, seed int64) {
 		}
 		m.class("family:" + fam)
 	}
+	// (2b) boundary-seeking shapes: counts exactly on 64/128-bit word boundaries
+	nB := 39
+	if !quick {
+		nB = 260
+	}
+	for i := 0; i < nB; i++ {
+		ci := (i + int(seed)) % len(boundaryConds)
+		fam := boundaryFamilies[r.Intn(len(boundaryFamilies))]
+		o4 := pickOpts(r, prop, 1)[0]
+		keys := seekBoundary(r, fam, ci, o4)
+		if keys == nil {
+			continue
+		}
+		enc := pickEnc(r, prop)
+		var vals [][]byte
+		if enc != "none" {
+			vals = valsFromPattern(enc, len(keys), 0, int64(r.Intn(100))) // distinct: keeps the sought shape
+		}
+		c := &TrieCase{Keys: keys, Enc: enc, Vals: vals, Opt4: o4}
+		runLookupCase(t, m, r, c, lookupOpts{qlimit: 200, table: true, loaded: true, keysObs: true})
+		m.class("boundary:" + boundaryConds[ci].Name)
+	}
 	// (3) degenerate: empty and single-key tries in every option combination
 	for _, o4 := range all16 {
 		for _, keys := range [][]string{{}, {""}, {"a"}, {"\x00\xff\x80"}} {
